@@ -68,7 +68,7 @@ func propC06(c *Ctx, r *Report) {
 	hold := c.fn("node.Pegnetd.ApplyTransactionBatchesInHolding")
 
 	r.rule("C06-R2/relation-row", 1, "every debited transaction leaves its relation row")
-	rb := c.fn("node.Pegnetd.recordBatch")
+	rb := c.bodyOf(c.fn("node.Pegnetd.recordBatch"), "pegnet.Pegnet.SubFromBalance")
 	{
 		debits := findCalls(rb, "pegnet.Pegnet.SubFromBalance")
 		rels := findCalls(rb, "pegnet.Pegnet.InsertTransactionRelation")
@@ -91,8 +91,7 @@ func propC06(c *Ctx, r *Report) {
 				if !instrDominates(debits[0], inputRel) {
 					bad = append(bad, "relation row can be written without the debit")
 				}
-				l := innermostLoop(rb, inputRel.Block())
-				if l == nil || !l.blocks[debits[0].Block()] || !everyIterationPasses(l, inputRel.Block()) {
+				if okk, _ := c.everyPassFam(inputRel); !okk {
 					bad = append(bad, "an iteration of the transaction loop can complete (e.g. through the PEG-request `continue`) without writing the relation row: a later copy of the entry would not be recognised as a replay")
 				}
 				ev, _ := errValueOf(inputRel)
